@@ -431,7 +431,6 @@ def _execute_history(case):
     # model: abs path -> {"ack": dataset|None, "maybe": [datasets], "history": [datasets], "clean": bool}
     files = {}
     dfas = {}  # abs path of the automaton file -> "ok" | "maybe"
-    loaded = set()  # (perm) held by the in-process loader memo
     obs = []
     abst = []
     ever_written = set()
@@ -474,6 +473,7 @@ def _execute_history(case):
         for idx, op in enumerate(case["ops"]):
             kind = op["op"]
             fired_before = len(fs.fired)
+            trace_before = len(fs.trace)
             fs.marker = idx
             crashed = False
             buf = io.StringIO()
@@ -501,7 +501,6 @@ def _execute_history(case):
                         result = ["v", None]
                     elif kind == "restart":
                         clear_memos()
-                        loaded.clear()
                         fs.restart()
                         out.fault("restart")
                     elif kind == "chdir":
@@ -516,7 +515,6 @@ def _execute_history(case):
                             dirty = [p for p in fs.dirty]
                             res = fs.power_loss([tuple(c) for c in op["choices"]])
                             clear_memos()
-                            loaded.clear()
                             out.fault("power_loss")
                             if dirty:
                                 out.probe("power_loss_dirty")
@@ -546,6 +544,29 @@ def _execute_history(case):
                 out.nontrivial = True
                 abst.append((kind, f["kind"], f["at"]))
             abst.append((kind,))
+
+            # ---- database files: what this op really did to them (from the I/O trace) ----
+            if not real:
+                wrote, closed = {}, set()
+                for _i, ckind, cpath, _sz, _mk in fs.trace[trace_before:]:
+                    if "dfa_db" not in cpath:
+                        continue
+                    if ckind == "write":
+                        wrote[cpath] = True
+                        closed.discard(cpath)
+                    elif ckind == "close" and cpath in wrote:
+                        closed.add(cpath)
+                bad_paths = {f["path"] for f in new_faults}
+                for cpath in wrote:
+                    if cpath in bad_paths or cpath not in closed or (crashed and cpath in bad_paths):
+                        dfas[cpath] = "maybe"
+                    elif dfas.get(cpath) != "maybe" or True:
+                        # a complete, unfaulted write of the whole file (store is write-once,
+                        # so the file did not exist before)
+                        dfas[cpath] = "ok" if cpath not in bad_paths else "maybe"
+                for f in new_faults:
+                    if "dfa_db" in f["path"] and f["at"] in ("open", "close", "write") and dfas.get(f["path"]) != "ok":
+                        dfas[f["path"]] = "maybe"
 
             # ---- model update and oracle --------------------------------------
             if kind == "write":
@@ -611,61 +632,40 @@ def _execute_history(case):
                                 f"{p}: read {str(got)[:150]}, which is neither the old nor the new dataset of that name", idx)
             elif kind in ("store", "create_db"):
                 perms = [tuple(op["perm"])] if kind == "store" else list(permutations(range(op["n"])))
-                for perm in perms:
-                    p = dfa_path(perm)
-                    if faulted or (isinstance(result, list) and result[0] == "exc"):
-                        if dfas.get(p) != "ok":
-                            dfas[p] = "maybe"
-                    elif p not in dfas:
-                        dfas[p] = "ok"
+                if real:
+                    for perm in perms:
+                        dfas.setdefault(dfa_path(perm), "ok")
                 if isinstance(result, list) and result[0] == "exc" and not faulted:
                     violate("store_failed", {"type": result[1]}, f"{kind} raised {result[1]}: {result[2]} without any injected fault", idx)
                 obs.append((kind, idx, "crash" if crashed else (result[0] if result else None)))
             elif kind in ("load", "from_db") and not crashed:
                 perms = [tuple(op["perm"])] if kind == "load" else [tuple(q) for q in op["basis"]]
                 strict = not faulted
+                touched_paths = {t[2] for t in fs.trace[trace_before:]} if not real else set()
                 for perm in perms:
                     p = dfa_path(perm)
-                    st = dfas.get(p)
-                    if perm in loaded:
+                    if real:
+                        dfas.setdefault(p, "ok")
                         continue
-                    if st is None:
-                        out.probe("load_absent_stores")
-                    if st == "maybe":
+                    if p not in touched_paths:
+                        continue  # answered from the in-process loader memo
+                    if dfas.get(p) == "maybe":
                         strict = False
+                    if not any(t[1] == "write" and t[2] == p for t in fs.trace[trace_before:]):
+                        pass
+                    else:
+                        out.probe("load_absent_stores")
                 if kind == "from_db":
                     out.probe("from_db_union")
-                if any(dfas.get(dfa_path(q)) == "ok" and q not in loaded for q in perms) and "restart" in [o["op"] for o in case["ops"][:idx]]:
+                if touched_paths and any(o["op"] == "restart" for o in case["ops"][:idx]):
                     out.probe("load_after_restart")
                 check_dfa(result, perms, strict, idx, kind)
-                if result[0] == "v":
-                    for perm in perms:
-                        p = dfa_path(perm)
-                        if perm not in loaded:
-                            # a real file access happened (a memo hit touches no file)
-                            if p not in dfas and not faulted:
-                                dfas[p] = "ok"
-                            elif p not in dfas:
-                                dfas[p] = "maybe"
-                        loaded.add(perm)
-                else:
-                    for perm in perms:
-                        p = dfa_path(perm)
-                        if p not in dfas or faulted:
-                            dfas[p] = "maybe" if dfas.get(p) != "ok" or faulted else "ok"
                 obs.append((kind, idx, result[0] if result[0] == "exc" else "dfa"))
             elif crashed:
-                # the op died: whatever it was writing is uncertain
-                if kind in ("load", "from_db"):
-                    perms = [tuple(op["perm"])] if kind == "load" else [tuple(q) for q in op["basis"]]
-                    for perm in perms:
-                        if dfas.get(dfa_path(perm)) != "ok":
-                            dfas[dfa_path(perm)] = "maybe"
                 obs.append((kind, idx, "crash"))
             if crashed:
                 # the process is gone; a new one starts on the same files
                 clear_memos()
-                loaded.clear()
                 fs.restart()
             log.add("op", idx, kind, core.canon(obs[-1]) if obs else None, [(f["kind"], f["at"]) for f in new_faults])
             if violations:
